@@ -58,7 +58,10 @@ From AV Require Export Model.Ops Spec.C09Dec Model.C09Ddl.
    DowngradeOps and back; the harness also runs upgrade and downgrade on SQLite. *)
 (* InAuto: the tables of a database as reflection delivers them, and the UpgradeOps the real autogenerate comparators
    produced against them (comment-capable dialects, no server); the downgrade must restore that very database *)
-Inductive c09_in := InOp (x : top) | InUp (up : list top) | InAuto (tables : list tdesc) (up : list top).
+(* InChange: as InAuto, for a pair of schemas that differ by exactly one object of table (t, s) that compare.py reports as
+   CHANGED; the UpgradeOps content is then also predicted by the model of the capture (Ops.capture_ops) *)
+Inductive c09_in := InOp (x : top) | InUp (up : list top) | InAuto (tables : list tdesc) (up : list top)
+                  | InChange (tables : list tdesc) (t : str) (s : option str) (ch : change).
 
 (* the abstract database holding exactly these tables (with their own indexes) *)
 Definition db_of (tables : list tdesc) : db :=
@@ -70,7 +73,9 @@ Inductive c09_out :=
        diffs = UpgradeOps([x]).as_diffs() and diffs_r = UpgradeOps([x.reverse()]).as_diffs(), the tuples compare_metadata reports *)
 | OutAuto (down : res (list top))
     (* upgrade_ops.reverse_into(DowngradeOps) of the comparator output *)
-| OutUp (down upup : res (list top)) (db_restored : bool).
+| OutUp (down upup : res (list top)) (db_restored : bool)
+| OutChange (up : list top) (down : res (list top)).
+    (* what the real comparators produced, and its reverse_into *)
     (* upgrade_ops.reverse_into(DowngradeOps), its own reverse(); whether compare_metadata finds
        nothing after running upgrade and downgrade on SQLite *)
 
@@ -79,6 +84,7 @@ Definition model_C09 (i : c09_in) : c09_out :=
   | InOp x => let r := reverse_top x in OutOp r (bind r reverse_top) (as_diffs [x]) (bind r (fun x' => as_diffs [x'])) true
   | InUp up => let d := reverse_ops up in OutUp d (bind d reverse_ops) true
   | InAuto _ up => OutAuto (reverse_ops up)
+  | InChange _ t s ch => OutChange (capture_ops t s ch) (reverse_ops (capture_ops t s ch))
   end.
 
 (* ------------------------------------------------------------------ inverse diff tuples *)
@@ -157,6 +163,14 @@ Definition leaf_count (x : top) : nat := match x with Leaf _ => 1%nat | ModifyTa
 
 (* ------------------------------------------------------------------ the property *)
 
+(* an autogenerated upgrade is reversible, has the inverse kinds in reverse order, applies to the database it was computed
+   against, the downgrade run after it gives that database back, and what its operations remember (the stored original, the existing_ values)
+   is the database's side of every change *)
+Definition restores (tables : list tdesc) (up : list top) (down : res (list top)) : Prop :=
+  exists d B, down = Ok d /\ kinds d = rev (map inverse_tkind (kinds up)) /\
+              apply_ops up (db_of tables) = Some B /\ apply_ops d B = Some (db_of tables) /\
+              undoable_ops up (db_of tables) = true.
+
 Definition C09_holds (i : c09_in) (o : c09_out) : Prop :=
   match i, o with
   | InOp x, OutOp r rr df dfr sql =>
@@ -170,10 +184,8 @@ Definition C09_holds (i : c09_in) (o : c09_out) : Prop :=
       (forall d, down = Ok d -> kinds d = rev (map inverse_tkind (kinds up)) /\ ok = true) /\
       (forall u, upup = Ok u -> Forall2 ddl_equiv_top u up)
   | InAuto tables up, OutAuto down =>
-      (* an autogenerated upgrade is reversible, has the inverse kinds in reverse order, applies to the database it was
-         computed against, and the downgrade run after it gives that database back *)
-      exists d B, down = Ok d /\ kinds d = rev (map inverse_tkind (kinds up)) /\
-                  apply_ops up (db_of tables) = Some B /\ apply_ops d B = Some (db_of tables)
+      restores tables up down
+  | InChange tables _ _ _, OutChange up down => restores tables up down
   | _, _ => False
   end.
 
@@ -194,6 +206,14 @@ Definition ddl_equivb_top (a b : top) : bool :=
   | _, _ => false
   end.
 
+Definition restoresb (tables : list tdesc) (up : list top) (down : res (list top)) : bool :=
+  match down, apply_ops up (db_of tables) with
+  | Ok d, Some B => decb (list_eq_dec tkind_eq_dec) (kinds d) (rev (map inverse_tkind (kinds up))) &&
+                    decb (option_eq_dec (smap_eq_dec tstate_eq_dec)) (apply_ops d B) (Some (db_of tables)) &&
+                    undoable_ops up (db_of tables)
+  | _, _ => false
+  end.
+
 Definition check_C09 (i : c09_in) (o : c09_out) : bool :=
   match i, o with
   | InOp x, OutOp r rr df dfr sql =>
@@ -206,12 +226,8 @@ Definition check_C09 (i : c09_in) (o : c09_out) : bool :=
       | Ok d => decb (list_eq_dec tkind_eq_dec) (kinds d) (rev (map inverse_tkind (kinds up))) && ok
       | Err _ => true end &&
       match upup with Ok u => forall2b ddl_equivb_top u up | Err _ => true end
-  | InAuto tables up, OutAuto down =>
-      match down, apply_ops up (db_of tables) with
-      | Ok d, Some B => decb (list_eq_dec tkind_eq_dec) (kinds d) (rev (map inverse_tkind (kinds up))) &&
-                        decb (option_eq_dec (smap_eq_dec tstate_eq_dec)) (apply_ops d B) (Some (db_of tables))
-      | _, _ => false
-      end
+  | InAuto tables up, OutAuto down => restoresb tables up down
+  | InChange tables _ _ _, OutChange up down => restoresb tables up down
   | _, _ => false
   end.
 
@@ -225,6 +241,7 @@ Definition corr_C09 (i : c09_in) (o : c09_out) : bool :=
   | OutUp d u _, OutUp d' u' _ =>
       decb (res_eq_dec (list_eq_dec top_eq_dec)) d d' && decb (res_eq_dec (list_eq_dec top_eq_dec)) u u'
   | OutAuto d, OutAuto d' => decb (res_eq_dec (list_eq_dec top_eq_dec)) d d'
+  | OutChange u d, OutChange u' d' => decb (list_eq_dec top_eq_dec) u u' && decb (res_eq_dec (list_eq_dec top_eq_dec)) d d'
   | _, _ => false
   end.
 
@@ -278,6 +295,7 @@ Definition inclass_C09 (i : c09_in) : bool :=
   | InOp x => roundtrip_safe_top x && diff_safe_top x
   | InUp up => forallb roundtrip_safe_top up
   | InAuto tables up => undoable_ops up (db_of tables)     (* what the operations remember is what the database holds *)
+  | InChange tables t s ch => undoable_ops (capture_ops t s ch) (db_of tables)
   end.
 
 (* ------------------------------------------------------------------ the class on which reverse is an involution
